@@ -251,7 +251,8 @@ class G:
         if not bound and self.pick([0, 1, 1]):
             # top-level (sibling) generator expressions reuse x / y / z; nested ones always get a fresh name, because
             # re-binding a name that an enclosing or later clause uses is a documented refusal of the interpreted engine
-            return self.pick(["x", "y", "z"])
+            # (loop variables may be spelled like field types - path, uri, ... - which are only names there)
+            return self.pick(["x", "y", "z", "x", "y", "path", "uri", "varint", "digest"])
         self.nvars += 1
         return "v%d" % self.nvars
 
